@@ -212,6 +212,44 @@ theorem execRest_trace_single (P : Parser) (w : World) (rq : Req) (role : Option
   | some o => exact sessionIntercept_trace w sraw whole cur o hsi
   | none => exact queryPath_trace_single P w rq role whole sraw cur hw h1 hq hcur hsr
 
+/-- a non-admin event that passed the gates does not touch `_internal`, provided the caller holds no
+    ACL row on `_internal` itself -/
+theorem gates_no_internal (w : World) (u : String) (r : Role) (st : Stmt) (cur : String)
+    (hr : r ≠ Role.admin) (hacl : kgRoleFor w INTERNAL u r = none)
+    (h : gates w (some (u, r)) (some st) (some cur) = none) : touchesInternal ⟨st, cur⟩ = false := by
+  rcases gates_none _ _ _ _ h with ⟨_, h2, h3⟩
+  have hne : (r == Role.admin) = false := by simpa using hr
+  have hne' : (r != Role.admin) = true := by simp [bne, hne]
+  unfold gateInternal at h2
+  simp only [hne', Bool.true_and] at h2
+  have hcur : (some cur == some INTERNAL) = false := by
+    by_cases hc : (some cur == some INTERNAL) = true
+    · simp [hc] at h2
+    · simpa using hc
+  have hcur' : (cur == INTERNAL) = false := by simpa using hcur
+  have hnames : namesInternal st = false := by
+    by_cases hn : namesInternal st = true
+    · simp [hcur, hn] at h2
+    · simpa using hn
+  unfold gateKg at h3
+  simp only [hne, Bool.false_eq_true, if_false] at h3
+  have htarget : (targetKg st (some cur) == some INTERNAL) = false := by
+    cases ht : targetKg st (some cur) with
+    | none => rfl
+    | some kg =>
+      by_cases hk : kg = INTERNAL
+      · subst hk
+        simp [ht, hacl] at h3
+      · simpa using hk
+  unfold touchesInternal actsOn
+  simp only [hcur', htarget, Bool.false_or]
+  unfold namesInternal at hnames
+  split
+  · rename_i n hk he
+    simp only [hk, he] at hnames
+    exact hnames
+  · rfl
+
 /-- **Key lemma.** For a single-line request with a target KG `cur` (and not a `?…` carrying both a
     session id and an explicit KG), everything on the trace is *the whole-text statement, run in `cur`*,
     and the three gates passed on exactly that statement and that KG. -/
